@@ -132,7 +132,8 @@ CHECKS = {
             "their base; CircuitTemplate.update_template(in_place=False) and OperatorTemplate.update_template modify nothing of the template they are called on; "
             "_update_variables / _update_operators likewise - for every input, from the current source. Bounded: deep snapshots of the same in-memory template "
             "before/after each read-only or copy-making operation (incl. deriving operator/node templates, population circuits) and sequences of them; afterwards "
-            "run(in_place=False) twice identical and equal to the spec. run / get_run_func(in_place=False) themselves are bounded only (they write bookkeeping to self: known finding).", "5 C14"),
+            "run(in_place=False) twice identical and equal to the spec. run / get_run_func / get_jacobian_func with in_place=False are under a frame contract too: they write "
+            "nothing to the template except three bookkeeping fields (state layout, state values, handle of the compiled network; that those are written is a listed known finding).", "5 C14"),
     note="Trusted: the ownership analysis and callee summaries (contracts/frames.py); snapshot_template reads nodes/edges/circuits/operators/equations/variables.",
     technique="contract-based deductive verification of frame conditions: %s + bounded frame (snapshot) contract checking of read-only operations" % FR_,
     engine="pyvc", rtc=True),
